@@ -28,7 +28,7 @@ type c16Case struct {
 func init() {
 	engine.Register(&engine.Check{
 		ID: "C16", Level: "model_checking",
-		Rule:   "for every geometry of the universe U (7 cloneable types x 6 layouts, built by SetCoords, by New*Flat with spare capacity, and with empty-but-non-nil slices) plus larger structures (6..33 polygons / 12..66 parts / 18..99 points), Coord and Bounds: c=g.Clone(); equality of type/layout/SRID/structure/bits; then every mutation history of depth <=2 (quick) / <=3 (thorough) over {overwrite all ordinates incl. spare capacity, overwrite all end offsets incl. spare capacity, Push, Reverse, SetCoords, SetSRID, TransformInPlace} x {original, clone}; after every transition the full state (incl. capacity contents) of the side not operated on must be unchanged. state = (geometry, construction, history) Also: Bounds cloned after every pre-history of <=2 operations (layout promoted by Extend, more stored dimensions than the layout after Set).",
+		Rule:   "for every geometry of the universe U (7 cloneable types x 6 layouts, built by SetCoords, by New*Flat with spare capacity, and with empty-but-non-nil slices) plus points, lines and multipoints whose ordinates are all (or singly) one of 9 special floats, plus larger structures (6..33 polygons / 12..66 parts / 18..99 points), Coord and Bounds: c=g.Clone(); equality of type/layout/SRID/structure/bits; then every mutation history of depth <=2 (quick) / <=3 (thorough) over {overwrite all ordinates incl. spare capacity, overwrite all end offsets incl. spare capacity, Push, Reverse, SetCoords, SetSRID, TransformInPlace} x {original, clone}; after every transition the full state (incl. capacity contents) of the side not operated on must be unchanged. state = (geometry, construction, history) Also: Bounds cloned after every pre-history of <=2 operations (layout promoted by Extend, more stored dimensions than the layout after Set).",
 		Run:    c16Run,
 		Replay: func(c *engine.Ctx, kind string, raw json.RawMessage) { c16Exec(c, decodeCase[c16Case](raw)) },
 		Assumptions: []string{
@@ -492,6 +492,26 @@ func c16Run(c *engine.Ctx) {
 				pat[i] = (i + 1) % 3
 			}
 			bases = append(bases, ref.NewMultiPoint(l, pat, ref.Counter()), ref.NewLine(ref.LineString, l, np*5, ref.Counter()))
+		}
+	}
+	// special floats: every ordinate of a point, of a 2-point line and of a multipoint set to the
+	// same special value (a point whose ordinates all carry the canonical quiet-NaN pattern is the
+	// WIRE form of the empty point, but in memory it is a point with coordinates), and one at a time
+	for _, l := range ref.Layouts4 {
+		for _, sv := range ref.SpecialFloats {
+			for _, g := range []*ref.G{ref.NewPoint(l, true, ref.Counter()), ref.NewLine(ref.LineString, l, 2, ref.Counter()), ref.NewMultiPoint(l, []int{1, 0, 1}, ref.Counter())} {
+				all := g.Clone()
+				all.Ordinates(func(p *ref.F) { *p = ref.F(sv) })
+				one := g.Clone()
+				k := 0
+				one.Ordinates(func(p *ref.F) {
+					if k == 1 {
+						*p = ref.F(sv)
+					}
+					k++
+				})
+				bases = append(bases, all, one)
+			}
 		}
 	}
 	nops := 2 * len(c16Ops())
